@@ -353,6 +353,8 @@ def companion_collision(s):
 def oracle_raw(R):
     """C02's statement on the implementation's dump.  Returns list of (key, what, decl) — decl = ('type'|'entity', name)."""
     s = R.schema
+    if R.status == "gen-fail" and re.search(r"characters long; \S*exp2cxx supports at most \d+", R.detail):
+        return []      # exp2cxx's documented identifier-length limit, refused with a diagnostic: outside its supported subset
     if R.status == "gen-fail":
         return [("generator-fails", "exp2cxx fails on a schema check-express accepts: " + R.detail[-300:], None)]
     if R.status == "compile-fail":
@@ -507,6 +509,49 @@ def corpus_schemas():
                                                type=tup(a["type"]), inv=a.get("inv"), init=a.get("init", "1")) for a in e.get("attrs", [])])
                               for e in d.get("entities", [])]
                 out.append((f[:-5], s))
+    return out
+
+
+def size_shapes(thorough):
+    """every size is a dimension: identifier length on both sides of exp2cxx's documented limit (200), many items / attributes /
+    supertypes / select members, deep inheritance, deep aggregate nesting"""
+    I = ("B", "INTEGER")
+
+    def A(name, t=I):
+        return dict(name=name, redecl=None, kind="E", opt=False, type=t, inv=None)
+    out = []
+    for L in (199, 200, 201):
+        s = G.Schema("len%d" % L)
+        en, tn, an, it = "e" + "x" * (L - 1), "t" + "y" * (L - 1), "a" + "z" * (L - 1), "i" + "w" * (L - 1)
+        s.types = [dict(name=tn, body=("enum", [it, "other"])), dict(name="r" + "q" * (L - 1), body=("alias", ("N", tn)))]
+        s.entities = [dict(name=en, abstract=False, supers=[], attrs=[A(an), A("b", ("N", tn))])]
+        out.append((f"idlen{L}", s))
+    n_items, n_attrs, n_sup, n_inh, n_nest, n_sel = (1500, 300, 12, 60, 8, 40) if thorough else (300, 100, 12, 30, 8, 40)
+    s = G.Schema("en"); s.types = [dict(name="big", body=("enum", ["item_%04d" % i for i in range(n_items)])),
+                                   dict(name="one", body=("enum", ["only"]))]
+    s.entities = [dict(name="e", abstract=False, supers=[], attrs=[A("x", ("N", "big")), A("y", ("N", "one"))])]
+    out.append((f"enum{n_items}", s))
+    s = G.Schema("manyattr"); s.entities = [dict(name="e", abstract=False, supers=[], attrs=[A("a%d" % i) for i in range(n_attrs)]),
+                                            dict(name="none", abstract=False, supers=[], attrs=[])]
+    out.append((f"attrs{n_attrs}", s))
+    s = G.Schema("manysup")
+    s.entities = [dict(name="s%d" % i, abstract=False, supers=[], attrs=[A("x%d" % i)]) for i in range(n_sup)] + \
+                 [dict(name="sub", abstract=False, supers=["s%d" % i for i in range(n_sup)], attrs=[A("own")])]
+    out.append((f"supers{n_sup}", s))
+    s = G.Schema("deepinh")
+    s.entities = [dict(name="d%d" % i, abstract=False, supers=(["d%d" % (i - 1)] if i else []), attrs=[A("y%d" % i)]) for i in range(n_inh)]
+    out.append((f"inherit{n_inh}", s))
+    t = I
+    for _ in range(n_nest):
+        t = ("A", "LIST", 0, "?", False, False, t)
+    s = G.Schema("nest"); s.types = [dict(name="nn", body=("alias", t))]
+    s.entities = [dict(name="e", abstract=False, supers=[], attrs=[A("x", t), A("y", ("N", "nn"))])]
+    out.append((f"nest{n_nest}", s))
+    s = G.Schema("selbig")
+    s.entities = [dict(name="m%d" % i, abstract=False, supers=[], attrs=[A("z%d" % i)]) for i in range(n_sel)]
+    s.types = [dict(name="sel", body=("select", [("E", "m%d" % i) for i in range(n_sel)]))]
+    s.entities.append(dict(name="h", abstract=False, supers=[], attrs=[A("w", ("N", "sel"))]))
+    out.append((f"select{n_sel}", s))
     return out
 
 
@@ -741,6 +786,7 @@ def run(ctx):
     # hash-order dependent emission (SCOPEPrint walks the symbol table): the same small shape under every assignment of a fixed
     # set of names to its roles, so that every relative iteration order of the declarations occurs
     run_batch(ctx, b, model_exe, [(nm, s, None) for nm, s in permuted_shapes()], "name-permutations")
+    run_batch(ctx, b, model_exe, [(nm, s, None) for nm, s in size_shapes(not quick)], "size-boundaries")
     n_gen = 24 if quick else 700
     g = G.Gen(ctx.rng, n_types=(4, 11))
     core = []
